@@ -20,6 +20,15 @@ register('C10', 'same BFS + histories; per-edge neighbour sets compared with the
          'symmetry, <= 2, flags. Exhaustive inside the BFS bound, sampled beyond.',
          'geometric rule evaluated on structural keys; agreement of keys and coordinates is C02', 'DESIGN.md 3/C10')
 
+register('C19', 'bounded BFS states + Hypothesis histories followed by refine_grading, validity oracle (window, refinement, model invariants)',
+         'Every BFS state to depth 2/3 x three exponents, plus generated biased histories on all curves; checks termination within a budget, '
+         'no exception, only-refines, parabolic window on every leaf, and all C02/C10 invariants on the result.',
+         'size of the graded mesh predicted on the reference model to bound the case; time budget overruns are inconclusive', 'DESIGN.md 3/C19')
+register('C06', 'complete enumeration of marked subsets on small meshes + Hypothesis marking histories against an exact-rational bulk criterion and the model closure',
+         'All non-empty subsets (iso n<=6, aniso n<=4) on every BFS state to depth 2, plus generated histories with 1-3 marking steps and adversarial '
+         'indicator recipes; outcome must equal the model closure for some admissible bulk set.',
+         'reference model closure; Fractions on the double inputs; ties at the cut accept any admissible prefix', 'DESIGN.md 3/C06')
+
 NOT_YET = {}
 def main():
     props = [json.loads(l)['id'] for l in open(os.path.join(V, 'properties.jsonl'))]
